@@ -362,7 +362,7 @@ func vC18Popcount(x uint32) int {
 
 // TestVerif_C18_alloc_exhaustive: AllocateToKClosest on tries rooted at the same depth.
 func TestVerif_C18_alloc_exhaustive(t *testing.T) {
-	vh.Run(t, vh.Spec{Prop: "C18", Unit: "alloc_exhaustive", Quick: 256, Thorough: 8192, CostMs: 30, Exhaustive: true,
+	vh.Run(t, vh.Spec{Prop: "C18", Unit: "alloc_exhaustive", Quick: 256, Thorough: 8192, CostMs: 100, Exhaustive: true,
 		Rule: "AllocateToKClosest over fixed-length bitstr keys, complete enumeration: 3-bit keys, ALL 256 destination subsets x 256 item subsets x k=0..9 (case i < 256 = destination subset i); 4-bit keys, ALL 65 536 destination subsets (subset m in case m mod #cases) x every single item x k in {1,2,3,5,8,16,17} (quick) / x every item set of size <= 2 x k=0..17 (thorough). Oracle: brute-force XOR distance on the integers. Every case is non-trivial (counted per case index)",
 		Clauses: []string{"alloc-count", "alloc-nearest", "alloc-no-duplicate", "alloc-foreign", "alloc-empty"}},
 		func(c *vh.Case) {
